@@ -207,15 +207,18 @@ def triggers(s, r, i):
     return out
 
 
+TIE_KEY = [None]        # the trigger the last tie_distance call found nearest
+
+
 def tie_distance(s, a, b, i):
     """a near-tie needs BOTH engines close to the SAME trigger at the same step (i or i-1): the smallest, over steps and
     triggers, of the larger of the two engines' distances"""
-    best = float("inf")
+    best, TIE_KEY[0] = float("inf"), None
     for j in (i, max(i - 1, 0)):
         ta, tb = triggers(s, a, j), triggers(s, b, j)
         for k in ta:
-            if k in tb:
-                best = min(best, max(ta[k], tb[k]))
+            if k in tb and max(ta[k], tb[k]) < best:
+                best, TIE_KEY[0] = max(ta[k], tb[k]), k
     return best
 
 
@@ -321,6 +324,26 @@ def compare(s, a, b, la, lb, upto, counts, near=0.05, limit_steps=()):
                             la_, lb_ = float(a.node["pressure"][n["n"]][j]), float(b.node["pressure"][n["n"]][j])
                             if min(abs(la_ - n["min"]), abs(la_ - n["max"]), abs(la_ - lb_)) < near:
                                 lim_ok = True
+            if lim_ok or (d < near and TIE_KEY[0] is not None and TIE_KEY[0][0] in ("tank-min", "tank-max")):
+                # a difference in how long a tank sits on its limit shifts the later levels by at most about one hydraulic
+                # step of tank flow and does not grow: tanks that END the compared horizon much further apart are no tie
+                import math
+                ns_ = min(len(a.times), len(b.times), upto)
+                for n_ in s["nodes"]:
+                    if n_["t"] != "tank":
+                        continue
+                    # (EPANET forgets a user's CLOSED command on a link that its tank-limit logic had temporarily closed and
+                    # reopens it with the tank: where a control commands the status of a link of this tank, the engines may
+                    # part for good at a limit event - the old false alarm of section 8.3, still excused)
+                    if any(c.get("attr", "status") == "status" and n_["n"] in (link(s, c["link"])["a"], link(s, c["link"])["b"]) for c in s["controls"]):
+                        continue
+                    vc_ = n_.get("vcurve")
+                    area_ = min((v1 - v0) / (l1 - l0) for (l0, v0), (l1, v1) in zip(vc_, vc_[1:])) if vc_ else math.pi / 4.0 * n_["diam"] ** 2
+                    qmax_ = max(max(abs(float(a.node["demand"][n_["n"]][j])), abs(float(b.node["demand"][n_["n"]][j]))) for j in range(ns_))
+                    bound_ = 1.5 * qmax_ * s["opts"]["hyd"] / area_ + near
+                    apart_ = abs(float(a.node["pressure"][n_["n"]][ns_ - 1]) - float(b.node["pressure"][n_["n"]][ns_ - 1]))
+                    if apart_ > bound_:
+                        return "%s; no event-timing tie: tank %s ends the run %.3f m apart (%.3f m would be one step of its largest flow)" % (msg, n_["n"], apart_, bound_), i
             if d < near or lim_ok:
                 counts["near_tie_truncations"] = counts.get("near_tie_truncations", 0) + 1
                 return "near-tie", i
